@@ -43,6 +43,11 @@ CHECKS["C20"] = dict(
    technique="TLA+ specs WritePool.tla and Locks.tla checked by TLC; lock programs extracted from recorded events of the real agent are the constant of Locks.tla; hand-offs judged on recorded events",
    text="TLC checks exclusivity, one-guard, priority at every hand-off and liveness (under fairness) of the dispatcher/guard/connection/permit protocol with cancellation at every stage, and the absence of deadlock in every composition of 2-3 lock programs under a FIFO write-preferring RwLock. A stress run of a real agent records every write-pool and lock-registry event: exclusivity and the priority rule are judged on the recorded hand-offs, a watchdog observes completion, and the lock programs the code actually performs are extracted and model-checked, so a change of lock order or guard scope in the code changes what TLC checks.",
    note="4 requesters / 3 tasks in the models; stress runs sample schedules; booked locks of different actors conservatively identified; tokio RwLock fairness as documented")
+CHECKS["C12"] = dict(
+   level="model_checking", engine="subcatchup", design="§6/C12",
+   technique="TLA+ spec SubCatchUp.tla checked exhaustively by TLC; its as-found counter-example is forced on the real code with pause points; free-running attaches over the real HTTP API and client library judged by the property",
+   text="TLC explores every interleaving of the matcher's emit/commit (events are sent before the commit) with an attaching or resuming subscriber: snapshot, queue task with its random select, peek, five catch-up retries, cancel, drain, forward, with receiver/queue capacities 1-3 so that Lagged and overflow occur, for every resume point; it checks that delivered ids are contiguous or the stream ends with an error. The duplicate the as-found protocol admits is replayed on the real agent with two pause points (mechanism D); subscribers attaching through HTTP while a writer commits are read with the real client library and each stream is judged (contiguity, MissedChange reports).",
+   note="ids <= 5 and capacities <= 3 in the model; the real 10240-slot buffers are not overflowed by the real runs; the forced schedule succeeds with probability < 1 per attempt (select! coin)")
 CHECKS.update({
  "C01": repl("§6/C01", "TLC checks NoInvention / NoLoss (a node that claims a version has every change of it that has not lost globally) / Converged / MergeOfAll on every behaviour of small instances (any delivery order, duplication, re-cut, loss, batching, sync serving, restart); seeded walks over 2-3 real agents are accepted only if every step is the specification's step, and the final drain must reach quiescence with byte-identical tables equal to the merge of all acknowledged transactions."),
  "C03": repl("§6/C03", "TLC checks Atomic (nothing of a remote version visible before the step that applies it), CoveredIsPending and BufferedHaveRecord on the model; real walks with re-cut, overlapping, duplicated chunks from origin and relays in batches are validated step by step, the harness observes the apply trigger exactly when the specification says the version is covered, and the drain must resolve every partial version."),
@@ -91,6 +96,7 @@ def main():
             {"name": "members", "path": "specs/Members.tla + specs/MCMembers.tla + harness/src/members.rs + lib/prop_c18.py", "serves_properties": ["C18"], "kind_free_text": "TLA+ model checked by TLC; all edges replayed"},
             {"name": "ingest", "path": "specs/Ingest.tla + specs/TraceIngest.tla + harness/src/ingest.rs + lib/prop_c10.py", "serves_properties": ["C10"], "kind_free_text": "TLA+ model checked by TLC; traces of the real loop validated"},
             {"name": "writepool", "path": "specs/WritePool.tla + specs/Locks.tla + harness/src/poolstress.rs + lib/prop_c20.py", "serves_properties": ["C20"], "kind_free_text": "TLA+ models checked by TLC; program extraction from recorded events"},
+            {"name": "subcatchup", "path": "specs/SubCatchUp.tla + harness/src/subrace.rs + lib/prop_c12.py", "serves_properties": ["C12"], "kind_free_text": "TLA+ model checked by TLC; schedule forcing with pause points; stream oracle"},
             {"name": "replication", "path": "specs/Replication.tla + specs/TraceReplication.tla + specs/MCReplication*.tla + harness/src/sim.rs + lib/repl.py + lib/repl_check.py", "serves_properties": ["C01", "C03", "C05", "C06", "C07"], "kind_free_text": "TLA+ model checked by TLC; recorded walks of real agents validated against the spec; counter-examples replayed on real agents"},
             {"name": "bookkeeping", "path": "specs/Bookkeeping.tla + specs/MCBookkeeping.tla + harness/src/bk.rs + lib/prop_c02.py", "serves_properties": ["C02"], "kind_free_text": "TLA+ model checked by TLC; all edges replayed on the real crates"},
         ],
